@@ -32,6 +32,8 @@ func c13(c *Ctx) {
 	c13R6(c)
 	c13R8(c, gens)
 	c13R9(c)
+	c13R10(c)
+	ruleArgSwap(c, "C13.R11", c.P.AllFuncs(), "the whole module (pod namespace / name pairs select the host-side link a teardown removes)")
 	itemIndependent(c, "C13.R7", [][3]string{{"daemon", "ruleSync", "one rule set per pod interface"}})
 }
 
@@ -285,6 +287,42 @@ func c13R2(c *Ctx, gens []*FuncInfo) {
 		}
 	}
 	c.Floor("C13.R2", "container-side generators", 4, n)
+	// and nobody else builds one: outside the generators (Check, repair and restore paths) a
+	// main-table default route is constructed only under <config>.DefaultRoute as well
+	isGen := map[*FuncInfo]bool{}
+	for _, g := range gens {
+		isGen[g] = true
+	}
+	for _, fn := range p.FuncsInPkg(datapathPkg) {
+		if isGen[fn] {
+			continue
+		}
+		info := fn.Info()
+		cfg := ""
+		for _, fld := range fn.Decl.Type.Params.List {
+			for _, nm := range fld.Names {
+				if nt := derefNamed(info.Defs[nm].Type()); nt != nil {
+					if st, ok := nt.Underlying().(*types.Struct); ok {
+						for i := 0; i < st.NumFields(); i++ {
+							if st.Field(i).Name() == "DefaultRoute" {
+								cfg = nm.Name
+							}
+						}
+					}
+				}
+			}
+		}
+		for _, r := range c13Routes(fn) {
+			if r.fam == 0 || r.hasTable {
+				continue
+			}
+			if cfg == "" {
+				c.Bad("C13.R2", fmt.Sprintf("%s: main-table IPv%d default route outside the generators", fn.Key(), r.fam), p.Pos(r.lit), fn.Key(), "built under <config>.DefaultRoute", "the function has no configuration that says whether this interface carries the default route")
+				continue
+			}
+			c.Require("C13.R2", fmt.Sprintf("%s: main-table IPv%d default route only when the interface carries the default route", fn.Key(), r.fam), fn, r.lit, cfg+".DefaultRoute", nil)
+		}
+	}
 }
 
 func c13R3(c *Ctx, gens []*FuncInfo) {
@@ -845,4 +883,60 @@ func trueKeys(m map[string]bool) []string {
 	}
 	sort.Strings(out)
 	return out
+}
+
+// R10: the lookup that decides "this route is already there" is as specific as
+// the route. FoundRoutes builds the netlink filter mask by OR-ing in one flag per
+// field the expected route sets (output interface, scope, gateway, table); the
+// mask only ever grows — an assignment that resets it drops the flags set before
+// it (without the interface flag any route to the same destination counts as
+// present, and a recycled pod address keeps pointing at the previous pod's link).
+func c13R10(c *Ctx) {
+	p := c.P
+	c.Rule("C13.R10", "FoundRoutes: the filter mask handed to RouteListFiltered is monotone — after its initial definition it is only OR-ed with further flags — and the output-interface flag is OR-ed in whenever the expected route names a link")
+	fn := p.Func("plugin/driver/utils", "FoundRoutes")
+	if fn == nil {
+		c.Unres("C13.R10", "utils.FoundRoutes", "not found")
+		return
+	}
+	info := fn.Info()
+	var mask types.Object
+	var list *ast.CallExpr
+	for _, cs := range p.CallsIn(fn) {
+		if cs.Callee != nil && cs.Callee.Name() == "RouteListFiltered" && len(cs.Call.Args) == 3 {
+			mask = identObj(info, cs.Call.Args[2])
+			list = cs.Call
+		}
+	}
+	if mask == nil {
+		c.Undec("C13.R10", "FoundRoutes: filter mask variable", p.Pos(fn.Decl), fn.Key(), "RouteListFiltered(family, &find, mask)", "not found")
+		return
+	}
+	defs := varDefs(fn, mask)
+	sort.Slice(defs, func(i, j int) bool { return defs[i].node.Pos() < defs[j].node.Pos() })
+	oif := false
+	for i, d := range defs {
+		if i == 0 {
+			continue
+		}
+		ok := false
+		if as, isA := d.node.(*ast.AssignStmt); isA {
+			if as.Tok == token.OR_ASSIGN {
+				ok = true
+			} else if be, isB := ast.Unparen(d.rhs).(*ast.BinaryExpr); isB && be.Op == token.OR && (identObj(info, be.X) == mask || identObj(info, be.Y) == mask) {
+				ok = true
+			}
+			if ok && strings.Contains(exprString2(as), "RT_FILTER_OIF") {
+				// under "the expected route names a link"
+				for _, x := range pathTo(fn.Decl.Body, as) {
+					if is, isIf := x.(*ast.IfStmt); isIf && strings.Contains(exprString(is.Cond), "LinkIndex") {
+						oif = true
+					}
+				}
+			}
+		}
+		c.Check(ok, "C13.R10", "FoundRoutes: the filter mask only grows", p.Pos(d.node), fn.Key(), mask.Name()+" = "+mask.Name()+" | <flag>", exprString2(d.node)+" resets the flags set before it")
+	}
+	c.Check(oif, "C13.R10", "FoundRoutes: a route that names a link is looked up on that link", p.Pos(list), fn.Key(), "if find.LinkIndex > 0 { mask |= RT_FILTER_OIF }", "not found")
+	c.Floor("C13.R10", "definitions of the filter mask", 3, len(defs))
 }
